@@ -45,6 +45,13 @@ pub fn load_incircuit(
             .map_err(|e| e.into())
             .map(|xs| xs.into_iter().map(CircuitValue::Bool).collect()),
 
+        IrType::Bytes(0) => {
+            // Nothing to assign (and `chunks(0)` below would panic): every value is the
+            // empty array.
+            convert_values::<Vec<u8>>(values)?;
+            Ok(vec![CircuitValue::Bytes(vec![]); values.len()])
+        }
+
         IrType::Bytes(n) => {
             let concatenated: Vec<Value<u8>> = convert_values::<Vec<u8>>(values)?
                 .into_iter()
